@@ -42,7 +42,8 @@ class Infra(Exception):
 # --------------------------------------------------------------------------- lean side
 
 def _lean_sources():
-  files = sorted(p for p in LEAN.rglob('*.lean') if '.lake' not in p.parts)
+  # (the audit's own scratch files, `audit-*.lean`, come and go while several checks run side by side)
+  files = sorted(p for p in LEAN.rglob('*.lean') if '.lake' not in p.parts and not p.name.startswith('audit-'))
   files.append(LEAN / 'lakefile.toml')
   return files
 
@@ -143,7 +144,7 @@ def axiom_audit(props_files):
     names = theorem_names(pf)
     module = pf[:-5].replace('/', '.')
     src = f'import {module}\n' + ''.join(f'#print axioms {n}\n' for n in names)
-    with tempfile.NamedTemporaryFile('w', suffix='.lean', dir=LEAN, delete=False) as f:
+    with tempfile.NamedTemporaryFile('w', prefix='audit-', suffix='.lean', dir=LEAN, delete=False) as f:
       f.write(src)
       tmp = f.name
     try:
